@@ -152,6 +152,7 @@ pub fn decode_c14(u: &mut Unstructured) -> Result<BackoffCase> {
         factor100: u.int_in_range(0u8..=100)?,
         a: a.min(b),
         b: a.max(b),
+        cap_first: u.arbitrary::<bool>().unwrap_or(false),
     })
 }
 
